@@ -34,6 +34,11 @@ Cond == [name : {"Watch", "Alarm"}, tag : TagRefs, op : Ops, value : Values, uni
 Sim == [tag : TagRefs, value : Values, unit : Units]
 SimOff == [tag : TagRefs]
 Cmd == [name : CmdRefs, arg : Args]
+(* text the line grammar cannot make an instruction of, or only half of one: the analysis must survive it *)
+Junk == {":", ": 5", "    : foo", "-x", "(x): 3", "5", "0.5", "0.5 ", "Watch", "Watch:", "Alarm: ", "Simulate:", "Simulate off:",
+         "Mark", "Mark:", "Call macro:", "Call macro: nope", "Macro:", "Block:", "End block: x", "Wait: abc", "Wait:", "Base: zz",
+         "1.5 Mark: a # c", "# only a comment", "    ", "Watch: In >", "Watch: > 5", "Alarm: In 5 L/h", "Mark: a: b: c"}
+MustFlagJunk == {":", ": 5", "    : foo", "-x", "(x): 3", "Watch", "Watch:", "Alarm: ", "Simulate:", "Watch: In >", "Watch: > 5"}
 
 (* a unit without a value is not a sensible text; an empty operator with a value reads as part of the tag name *)
 SensibleCond(p) == (p.value = "" => p.unit = None) /\ (p.op = "" => p.value = "" /\ p.unit = None)
@@ -50,6 +55,8 @@ Init == \/ /\ kind = "cond" /\ parts \in {p \in Cond : SensibleCond(p)}
         \/ /\ kind = "command" /\ parts \in Cmd
            /\ line = parts.name \o Opt(": ", parts.arg)
            /\ mustFlag = (parts.name \notin DefinedCommands)
+        \/ /\ kind = "junk" /\ line \in Junk /\ parts = [text |-> line]
+           /\ mustFlag = (line \in MustFlagJunk)
 Next == UNCHANGED vars
 Spec == Init /\ [][Next]_vars
 
@@ -58,4 +65,5 @@ FlagMeansSomethingIsWrong ==
     mustFlag => \/ kind \in {"cond", "simulate", "simoff"} /\ (parts.tag \notin DefinedTags \/ (kind = "cond" /\ parts.op = "")
                                                                   \/ (kind # "simoff" /\ parts.value = ""))
                 \/ kind = "command" /\ parts.name \notin DefinedCommands
+                \/ kind = "junk"
 =============================================================================
